@@ -135,7 +135,7 @@ def generate(rng):
             rows = rng.choice([1, 2, 3, 4, 6])
             ops.append({"op": "set_col", "b": b, "c": c, "col": col, "cells": [gen_cell(rng, p_awk) for _ in range(rows)],
                         "rows": "match" if rng.random() < (0.85 if not faulty else 0.6) else "own",
-                        "how": rng.choice(["list", "array", "column", "column_mask", "scalar"])})
+                        "how": rng.choice(["list", "array", "column", "column_mask", "scalar", "tuple", "column_tuple"])})
             if b in sk and c in sk[b] and col not in sk[b][c]:
                 sk[b][c].append(col)
         elif r < 0.46:
@@ -213,6 +213,10 @@ class Store:
                 return self.Column(np.array(data, dtype=str), np.array(masks, dtype=np.uint8))
             if how == "list":
                 return data
+            if how == "tuple":
+                return tuple(data)  # documented as array_like
+            if how == "column_tuple":
+                return self.Column(tuple(data))
             if how == "array":
                 return np.array(data, dtype=str)
             if how == "scalar" and len(data) == 1:
@@ -220,6 +224,10 @@ class Store:
             return self.Column(np.array(data, dtype=str))
         if how == "list":
             return strs
+        if how == "tuple":
+            return tuple(strs)
+        if how == "column_tuple":
+            return self.Column(tuple(strs), tuple(masks)) if anym else self.Column(tuple(strs))
         if how == "array":
             return np.array(strs, dtype=str)
         if how == "scalar" and len(strs) == 1:
